@@ -32,6 +32,17 @@ func patternExternal(i *interpreter, fn *ssa.Function, full string) externalFn {
 	if fn.Pkg != nil && noopPackages[fn.Pkg.Pkg.Path()] {
 		return noopZero(fn)
 	}
+	if zeroResultFuncs[full] {
+		return noopZero(fn)
+	}
+	if fn.Pkg != nil && strings.HasPrefix(fn.Pkg.Pkg.Path(), "google.golang.org/protobuf/") {
+		return noopZero(fn) // descriptor registration plumbing of generated code
+	}
+	if recv := fn.Signature.Recv(); recv != nil {
+		if p := pkgOfType(recv.Type()); p != nil && strings.HasPrefix(p.Path(), "google.golang.org/protobuf/") {
+			return noopZero(fn)
+		}
+	}
 	if fn.Pkg == nil {
 		// method of a type from a body-less package reached through an interface wrapper
 		if recv := fn.Signature.Recv(); recv != nil {
@@ -220,7 +231,7 @@ func init() {
 			}
 		case *Term:
 			nc := i.ts.Not(c)
-			res, kept := i.solver.CheckKeep(nc)
+			res, vm := i.check(nc)
 			if i.cross != nil && res != Unknown {
 				r2 := i.cross.Check(nc)
 				if r2 != res && r2 != Unknown {
@@ -229,10 +240,8 @@ func init() {
 			}
 			switch res {
 			case Sat:
-				_ = kept
 				i.modelValid = false
-				i.recordViolationInScope(label, "assertion can fail"+fr.callerLoc())
-				i.solver.Pop()
+				i.recordViolationModel(label, "assertion can fail"+fr.callerLoc(), vm)
 				panic(abortPath{abViolation, label})
 			case Unknown:
 				i.w.noteUnknown("assertion " + label + ": solver unknown")
@@ -293,7 +302,7 @@ func (fr *frame) callerLoc() string {
 
 // recordViolationInScope is recordViolation when the solver scope already holds pc ∧ ¬cond
 // with a Sat answer.
-func (i *interpreter) recordViolationInScope(label, msg string) {
+func (i *interpreter) recordViolationModel(label, msg string, m Model) {
 	ex := i.w.ex
 	ex.mu.Lock()
 	n := ex.vcount[label]
@@ -302,7 +311,6 @@ func (i *interpreter) recordViolationInScope(label, msg string) {
 	if n >= ex.cfg.MaxViolation {
 		return
 	}
-	m := i.readModel()
 	if m == nil {
 		ex.mu.Lock()
 		ex.rep.Inconclusive["assertion "+label+": model could not be read"]++
@@ -397,5 +405,14 @@ func init() {
 // never uses (errors.As's errorType, unicode tables are data and are kept).
 var skipInits = map[string]bool{
 	"errors.init":  true,
+	// only reflect.TypeOf/uint256 helper globals; IsHexAddress & co. need none of them
+	"github.com/ethereum/go-ethereum/common.init": true,
 	"strconv.init": false,
+}
+
+// zeroResultFuncs: body-less functions whose result is only stored in tables that the
+// checked code paths never read (reflection values built in package initialisers).
+var zeroResultFuncs = map[string]bool{
+	"reflect.ValueOf": true,
+	"reflect.Zero":    true,
 }
